@@ -59,7 +59,7 @@ class ConstantExpr(Expr):
     def frequency_response(self):
         """Convert to  frequency response domain representation."""
 
-        return self.change(self, domain='angular frequency response')
+        return self.change(self, domain='frequency response')
 
     def angular_frequency_response(self):
         """Convert to angular frequency response domain representation."""
